@@ -13,9 +13,9 @@ pub fn spec() -> Spec {
         replay,
         nshards: |_| 16,
         case_cap_s: |t| t.pick(600, 7200),
-        rule: "states are operation histories over up to two instances (original + one clone) of Partition<u8> and IntPartition driven in lock-step; mode 'fixpoint' (stateright BFS) keys a history by the hook snapshot of every instance's internal forest (elements, parent, rank) plus the reference partition and runs to the fixpoint, so every reachable internal state is visited; mode 'histories' enumerates every history up to a depth with no merging and observes only through the public API; mode 'unions' enumerates every sequence of unions of distinct elements over 6 elements to a depth on one instance (union by rank needs 6 elements to unite a non-root of a rank-1 class with a rank-2 class). In every state: same representative <=> connected by the unions applied to that instance; representative is a member of its class; classes() is the first-occurrence grouping for every duplicate-free query of <= 3 elements; on every transition: representatives of classes not touched by a union are unchanged, on both instances. Non-trivial state = at least one union of two different classes happened.",
+        rule: "states are operation histories over up to two instances (original + one clone) of Partition<u8> and IntPartition driven in lock-step; mode 'fixpoint' (stateright BFS) keys a history by the hook snapshot of every instance's internal forest (elements, parent, rank) plus the reference partition and runs to the fixpoint, so every reachable internal state is visited; mode 'histories' enumerates every history up to a depth with no merging and observes only through the public API; mode 'unions' enumerates every sequence of unions of distinct elements over 6 elements to a depth on one instance (union by rank needs 6 elements to unite a non-root of a rank-1 class with a rank-2 class); mode 'deep' is a hand-written parallel breadth-first search over the INTERNAL states (hook snapshots of both structures + reference partition) of one instance over 8 elements, all unions, with at most F finds interleaved (deviation bound; finds are otherwise only made on throw-away clones for observation), restricted to histories whose first uses of elements occur in increasing order (union by rank needs 8 elements for a tree of depth 3), run to the fixpoint; a counterexample is rebuilt from predecessor links and re-validated by a plain replay. In every state: same representative <=> connected by the unions applied to that instance; representative is a member of its class; classes() is the first-occurrence grouping for every duplicate-free query of <= 3 elements; on every transition: representatives of classes not touched by a union are unchanged, on both instances. Non-trivial state = at least one union of two different classes happened.",
         assumptions: &["fixpoint mode reads the internal arrays through the cfg-gated verif_snapshot hook; the histories mode does not use the hook and cross-checks it"],
-        bounds: |t| json!({"fixpoint_universe": t.pick(3, 4), "instances": 2, "histories_universe": 3, "histories_depth": t.pick(5, 6), "unions_universe": 6, "unions_depth": t.pick(5, 6), "single_instance_fixpoint_universe_thorough": 5}),
+        bounds: |t| json!({"fixpoint_universe": t.pick(3, 4), "instances": 2, "histories_universe": 3, "histories_depth": t.pick(5, 6), "unions_universe": 6, "unions_depth": t.pick(5, 6), "single_instance_fixpoint_universe_thorough": 5, "deep_universe": 8, "deep_max_finds": t.pick(0, 2), "deep_restriction": "first uses of elements in increasing order (one history per relabeling class)"}),
     }
 }
 
@@ -508,6 +508,224 @@ fn run_unions(ctx: &mut Ctx, u: u8, depth: usize) {
     rec(ctx, u, depth, &pairs, &mut vec![]);
 }
 
+// --- deep mode: breadth-first search over INTERNAL states of one instance ------------------------------
+
+/// Explicit-state BFS over a larger universe.  A state is one live (Partition<u8>, IntPartition) pair driven in
+/// lock-step; its key is the hook snapshot of both internal forests plus the reference partition, so two
+/// histories are merged exactly when the implementation can no longer tell them apart (same arrays => same
+/// futures).  Successors are produced with `clone` (whose result is compared with the original through the
+/// hook; clone independence itself is checked by the other modes).  In every state: observation on a
+/// throw-away clone (find on every element) against the reference; on every transition: stability of the
+/// representatives of untouched classes, and find's return value against the observation.  A counterexample
+/// is rebuilt from stored predecessor links and re-validated black-box by `check_history`.
+fn run_deep(ctx: &mut Ctx, u: u8, max_finds: u8, state_cap: usize) {
+    use std::collections::{HashMap, HashSet};
+    ctx.announce(&json!({"mode": "deep", "universe": u, "max_finds": max_finds}));
+    type Key = (Snap, ISnap, Vec<u8>, u8, u8);
+    fn key_of(r: &Real, f: u8, used: u8) -> Key {
+        (r.ps[0].verif_snapshot(), r.ips[0].verif_snapshot(), r.rf[0].clone(), f, used)
+    }
+    fn clone_real(r: &Real) -> Real {
+        Real { ps: vec![r.ps[0].clone()], ips: vec![r.ips[0].clone()], rf: vec![r.rf[0].clone()] }
+    }
+    struct Node {
+        id: u32,
+        r: Real,
+        finds: u8,
+        used: u8,
+    }
+    // Real holds UnsafeCell-based structures; a node is only ever touched by the one thread that owns its chunk
+    struct SendNode(Node);
+    unsafe impl Send for SendNode {}
+    struct Succ {
+        parent: u32,
+        opk: u16,
+        key: Key,
+        node: SendNode,
+    }
+    /// what one thread found wrong: (state id, last op index, message)
+    type Bad = (u32, Option<u16>, String);
+    let mut ops: Vec<Op> = vec![];
+    for a in 0..u {
+        ops.push(Op::Find(0, a));
+        for b in 0..u {
+            ops.push(Op::Unite(0, a, b));
+        }
+    }
+    let mut pred: Vec<(u32, u16)> = vec![(u32::MAX, 0)];
+    let mut index: HashMap<Key, u32> = HashMap::new();
+    let r0 = fresh(u);
+    index.insert(key_of(&r0, 0, 0), 0);
+    let mut frontier: Vec<SendNode> = vec![SendNode(Node { id: 0, r: r0, finds: 0, used: 0 })];
+    let mut transitions = 0u64;
+    let mut depth = 0usize;
+    let history_of = |pred: &Vec<(u32, u16)>, ops: &Vec<Op>, mut id: u32, last: Option<u16>| -> Vec<Op> {
+        let mut h = vec![];
+        while pred[id as usize].0 != u32::MAX {
+            h.push(ops[pred[id as usize].1 as usize].clone());
+            id = pred[id as usize].0;
+        }
+        h.reverse();
+        if let Some(k) = last {
+            h.push(ops[k as usize].clone());
+        }
+        h
+    };
+    let nthreads = std::thread::available_parallelism().map(|n| n.get()).unwrap_or(4).min(16);
+    let mut capped = false;
+    while !frontier.is_empty() {
+        ctx.announce(&json!({"mode": "deep", "universe": u, "max_finds": max_finds, "depth": depth, "states": index.len()}));
+        let chunk = (frontier.len() + nthreads - 1) / nthreads;
+        let mut chunks: Vec<Vec<SendNode>> = vec![];
+        let mut it = frontier.into_iter();
+        loop {
+            let c: Vec<SendNode> = it.by_ref().take(chunk.max(1)).collect();
+            if c.is_empty() {
+                break;
+            }
+            chunks.push(c);
+        }
+        let index_ref = &index;
+        let ops_ref = &ops;
+        let results: Vec<(Vec<Succ>, u64, Option<Bad>)> = std::thread::scope(|sc| {
+            let hs: Vec<_> = chunks
+                .into_iter()
+                .map(|c| {
+                    sc.spawn(move || {
+                        let mut out: Vec<Succ> = vec![];
+                        let mut local: HashSet<Key> = HashSet::new();
+                        let mut trans = 0u64;
+                        for SendNode(nd) in c {
+                            let r = &nd.r;
+                            let res = std::panic::catch_unwind(std::panic::AssertUnwindSafe(|| -> Option<Bad> {
+                                let probe = clone_real(r);
+                                if key_of(&probe, 0, 0) != key_of(r, 0, 0) {
+                                    return Some((nd.id, None, "clone has a different internal state than its original".into()));
+                                }
+                                let obs = observe(u, &probe);
+                                if let Some(why) = check_state(u, r, &obs, false) {
+                                    return Some((nd.id, None, why));
+                                }
+                                for (k, op) in ops_ref.iter().enumerate() {
+                                    let is_find = matches!(op, Op::Find(..));
+                                    if is_find && nd.finds >= max_finds {
+                                        continue;
+                                    }
+                                    let nf = nd.finds + is_find as u8;
+                                    // first uses of elements occur in increasing order (one history per relabeling class)
+                                    let nused = match op {
+                                        Op::Find(_, a) => {
+                                            if *a > nd.used {
+                                                continue;
+                                            }
+                                            nd.used.max(*a + 1)
+                                        }
+                                        Op::Unite(_, a, b) => {
+                                            if *a > nd.used {
+                                                continue;
+                                            }
+                                            let ua = nd.used.max(*a + 1);
+                                            if *b > ua {
+                                                continue;
+                                            }
+                                            ua.max(*b + 1)
+                                        }
+                                        _ => nd.used,
+                                    }
+                                    .min(u);
+                                    let mut t = clone_real(r);
+                                    let ret: Option<(u8, usize)> = match op {
+                                        Op::Find(_, a) => Some((t.ps[0].find(a), t.ips[0].find(*a as usize))),
+                                        _ => {
+                                            apply(&mut t, op);
+                                            None
+                                        }
+                                    };
+                                    trans += 1;
+                                    let probe2 = clone_real(&t);
+                                    let obs2 = observe(u, &probe2);
+                                    let mut why = check_stability(u, &r.rf, &obs, &t, &obs2, op);
+                                    if why.is_none() {
+                                        if let (Some((pa, ia)), Op::Find(_, a)) = (ret, op) {
+                                            if pa != obs.0[0][*a as usize] || ia != obs.1[0][*a as usize] {
+                                                why = Some(format!("find({}) returned {} / {} (Partition / IntPartition) where the observation of the same state gives {} / {}", a, pa, ia, obs.0[0][*a as usize], obs.1[0][*a as usize]));
+                                            }
+                                        }
+                                    }
+                                    if why.is_none() {
+                                        why = check_state(u, &t, &obs2, false);
+                                    }
+                                    if let Some(w) = why {
+                                        return Some((nd.id, Some(k as u16), w));
+                                    }
+                                    let key = key_of(&t, nf, nused);
+                                    if !index_ref.contains_key(&key) && local.insert(key.clone()) {
+                                        out.push(Succ { parent: nd.id, opk: k as u16, key, node: SendNode(Node { id: 0, r: t, finds: nf, used: nused }) });
+                                    }
+                                }
+                                None
+                            }));
+                            match res {
+                                Ok(None) => {}
+                                Ok(Some(b)) => return (out, trans, Some(b)),
+                                Err(e) => return (out, trans, Some((nd.id, None, format!("panic while expanding this state: {}", panic_message(&e))))),
+                            }
+                        }
+                        (out, trans, None)
+                    })
+                })
+                .collect();
+            hs.into_iter().map(|h| h.join().expect("deep-mode thread")).collect()
+        });
+        let mut next: Vec<SendNode> = vec![];
+        let mut bad: Option<Bad> = None;
+        for (succ, trans, b) in results {
+            transitions += trans;
+            if let Some(b) = b {
+                // shortest history first (BFS level is the same for all; take the smallest id)
+                if bad.as_ref().map_or(true, |x| (b.0, b.1) < (x.0, x.1)) {
+                    bad = Some(b);
+                }
+            }
+            for sx in succ {
+                if index.contains_key(&sx.key) {
+                    continue;
+                }
+                if index.len() >= state_cap {
+                    capped = true;
+                    continue;
+                }
+                let nid = pred.len() as u32;
+                index.insert(sx.key, nid);
+                pred.push((sx.parent, sx.opk));
+                let mut nd = sx.node;
+                nd.0.id = nid;
+                next.push(nd);
+            }
+        }
+        if let Some((id, last, why)) = bad {
+            let h = history_of(&pred, &ops, id, last);
+            // re-validated black-box; if the plain replay does not show it, the internal check's message is kept
+            let why2 = std::panic::catch_unwind(std::panic::AssertUnwindSafe(|| check_history(u, &h))).ok().flatten().unwrap_or(why);
+            ctx.violation("partition", hist_json(u, &h), why2, h.len() as u64);
+            return;
+        }
+        frontier = next;
+        depth += 1;
+    }
+    if capped {
+        ctx.cap_hit(format!("deep mode over {} elements stopped adding states at {} (all states up to that count were expanded)", u, state_cap));
+    }
+    ctx.states += index.len() as u64;
+    ctx.transitions += transitions;
+    ctx.traces += transitions;
+    ctx.evaluations += index.len() as u64;
+    ctx.nontrivial += index.len() as u64 - 1;
+    ctx.add(&format!("deep_u{}_f{}_states", u, max_finds), index.len() as i64);
+    ctx.add(&format!("deep_u{}_f{}_transitions", u, max_finds), transitions as i64);
+    ctx.max(&format!("deep_u{}_f{}_depth", u, max_finds), depth as i64);
+}
+
 fn run(ctx: &mut Ctx) {
     let tier = ctx.tier;
     run_histories(ctx, 3, tier.pick(5, 6));
@@ -516,6 +734,11 @@ fn run(ctx: &mut Ctx) {
     }
     if ctx.nviolations() > 0 {
         return; // shortest counterexample comes from the hook-free DFS
+    }
+    if ctx.shard == 1 % ctx.nshards && !ctx.replaying {
+        let u = std::env::var("VERIF_C20_DEEP").ok().and_then(|v| v.parse::<u8>().ok()).unwrap_or(8);
+        let f = std::env::var("VERIF_C20_FINDS").ok().and_then(|v| v.parse::<u8>().ok()).unwrap_or(tier.pick(0, 2));
+        run_deep(ctx, u, f, 40_000_000);
     }
     if ctx.shard == 0 || ctx.replaying {
         run_fixpoint(ctx, 3, 2);
